@@ -3,6 +3,7 @@ package run
 import (
 	"os"
 	"os/signal"
+	"sync"
 	"syscall"
 
 	"github.com/puzpuzpuz/xsync"
@@ -11,11 +12,15 @@ import (
 	"github.com/relex/slog-agent/defs"
 )
 
-// sinksByClientNumber is a fix-sized array to hold downstream sinks by client number as array index
-type sinksByClientNumber [base.MaxClientNumber]base.BufferReceiverSink
-
-// addrsByClientNumber is a fix-sized array to hold client addresses by client number as array index
-type addrsByClientNumber [base.MaxClientNumber]string
+// reloadableSinkState is the state of one ReloadableSink shared with ReloadableOrchestrator.
+//
+// The states are kept per sink and not per client number: a client number (socket FD) can be reused by a new connection
+// while the previous connection with the same number is still flushing and closing its sink.
+type reloadableSinkState struct {
+	downstream    base.BufferReceiverSink // the current downstream sink, replaced at reloading
+	clientAddress string
+	clientNumber  base.ClientNumber
+}
 
 // InitiateReloadingFunc initiates the reloading process and returns error if it cannot be continued (e.g. error in
 // new config).
@@ -33,11 +38,11 @@ type CompleteReloadingFunc func() base.Orchestrator
 // The type is to be paired with Reloader, which provides the function to reload configuration file and create real Orchestrator(s).
 type ReloadableOrchestrator struct {
 	logger          logger.Logger
-	downstream      base.Orchestrator     // the real orchestrator
-	initiateReload  InitiateReloadingFunc // function to start reloading and launch a new downstream orchestrator
-	downstreamSinks sinksByClientNumber
-	downstreamAddrs addrsByClientNumber
-	downstreamMutex *xsync.RBMutex // read-lock for using/adding downstream sinks, write-lock for renewing the downstream Orchestrator
+	downstream      base.Orchestrator                 // the real orchestrator
+	initiateReload  InitiateReloadingFunc             // function to start reloading and launch a new downstream orchestrator
+	openSinks       map[*reloadableSinkState]struct{} // all open sinks, to be re-created at reloading
+	openSinksMutex  *sync.Mutex                       // protect the openSinks map itself
+	downstreamMutex *xsync.RBMutex                    // read-lock for using/adding downstream sinks, write-lock for renewing the downstream Orchestrator
 }
 
 // NewReloadableOrchestrator creates a reloadable orchestrator wrapping the given downstream orchestrator
@@ -48,8 +53,8 @@ func NewReloadableOrchestrator(downstream base.Orchestrator, initiateReload Init
 		logger:          logger.WithField(defs.LabelComponent, "ReloadableOrchestrator"),
 		downstream:      downstream,
 		initiateReload:  initiateReload,
-		downstreamSinks: sinksByClientNumber{},
-		downstreamAddrs: addrsByClientNumber{},
+		openSinks:       make(map[*reloadableSinkState]struct{}),
+		openSinksMutex:  &sync.Mutex{},
 		downstreamMutex: &xsync.RBMutex{},
 	}
 
@@ -70,23 +75,22 @@ func NewReloadableOrchestrator(downstream base.Orchestrator, initiateReload Init
 
 // NewSink creates a new reloadable sink for an input source (e.g. incoming TCP connection)
 func (orc *ReloadableOrchestrator) NewSink(clientAddress string, clientNumber base.ClientNumber) base.BufferReceiverSink {
-	newDownstream := orc.downstream.NewSink(clientAddress, clientNumber)
-
-	lockT := orc.downstreamMutex.RLock() // only read-lock since we assume clientNumber is unique and nobody else is accessing it
+	// the downstream sink must be created within the lock, or it could come from an orchestrator shut down by reloading
+	lockT := orc.downstreamMutex.RLock()
 	defer orc.downstreamMutex.RUnlock(lockT)
 
-	if orc.downstreamSinks[clientNumber] != nil {
-		orc.logger.WithFields(logger.Fields{
-			"newClient":    clientAddress,
-			"oldClient":    orc.downstreamAddrs[clientNumber],
-			"clientNumber": clientNumber,
-		}).Error("created new sink while old sink is still in place")
+	state := &reloadableSinkState{
+		downstream:    orc.downstream.NewSink(clientAddress, clientNumber),
+		clientAddress: clientAddress,
+		clientNumber:  clientNumber,
 	}
-	orc.downstreamSinks[clientNumber] = newDownstream
-	orc.downstreamAddrs[clientNumber] = clientAddress
+	orc.openSinksMutex.Lock()
+	orc.openSinks[state] = struct{}{}
+	orc.openSinksMutex.Unlock()
 
 	return &ReloadableSink{
-		downstreamPtr:   &orc.downstreamSinks[clientNumber],
+		state:           state,
+		orchestrator:    orc,
 		downstreamMutex: orc.downstreamMutex,
 	}
 }
@@ -109,26 +113,21 @@ func (orc *ReloadableOrchestrator) reload() {
 	orc.downstreamMutex.Lock()
 	defer orc.downstreamMutex.Unlock()
 
+	orc.openSinksMutex.Lock()
+	defer orc.openSinksMutex.Unlock()
+
 	// close sinks created with old configuration and shut down
-	for _, sink := range orc.downstreamSinks {
-		if sink == nil {
-			continue
-		}
-		sink.Close()
-		// keep closed sinks in place so we know which ones to re-create below
+	for state := range orc.openSinks {
+		state.downstream.Close()
 	}
 	orc.downstream.Shutdown()
 
 	// recreate downstream Orchestrator and all sinks closed above
 	orc.downstream = completeRenewal()
-	for i, sink := range orc.downstreamSinks {
-		if sink == nil {
-			continue
-		}
-		clientAddress := orc.downstreamAddrs[i]
-		clientNumber := base.ClientNumber(i)
-		orc.downstreamSinks[i] = orc.downstream.NewSink(clientAddress, clientNumber)
+	for state := range orc.openSinks {
+		state.downstream = orc.downstream.NewSink(state.clientAddress, state.clientNumber)
 	}
+
 	orc.logger.Info("reloaded config")
 	reloadSuccessCounter.Inc()
 }
@@ -137,7 +136,8 @@ func (orc *ReloadableOrchestrator) reload() {
 //
 // Like BufferReceiverSink, a ReloadableSink runs in individual input goroutines (e.g. TCP connection handler).
 type ReloadableSink struct {
-	downstreamPtr   *base.BufferReceiverSink
+	state           *reloadableSinkState
+	orchestrator    *ReloadableOrchestrator
 	downstreamMutex *xsync.RBMutex
 }
 
@@ -146,7 +146,7 @@ func (sink *ReloadableSink) Accept(buffer []*base.LogRecord) {
 	lockT := sink.downstreamMutex.RLock()
 	defer sink.downstreamMutex.RUnlock(lockT)
 
-	(*sink.downstreamPtr).Accept(buffer)
+	sink.state.downstream.Accept(buffer)
 }
 
 // Tick calls Tick on the bound downstream sink
@@ -154,7 +154,7 @@ func (sink *ReloadableSink) Tick() {
 	lockT := sink.downstreamMutex.RLock()
 	defer sink.downstreamMutex.RUnlock(lockT)
 
-	(*sink.downstreamPtr).Tick()
+	sink.state.downstream.Tick()
 }
 
 // Close closes the bound downstream sink and the reloadable sink itself
@@ -162,6 +162,9 @@ func (sink *ReloadableSink) Close() {
 	lockT := sink.downstreamMutex.RLock()
 	defer sink.downstreamMutex.RUnlock(lockT)
 
-	(*sink.downstreamPtr).Close()
-	*sink.downstreamPtr = nil
+	sink.state.downstream.Close()
+
+	sink.orchestrator.openSinksMutex.Lock()
+	delete(sink.orchestrator.openSinks, sink.state)
+	sink.orchestrator.openSinksMutex.Unlock()
 }
